@@ -102,6 +102,15 @@ def register(R):
                           'forall(lambda j: item(result, j) is pad, len(data), batch_size)'],
                  note='ASSUMED: np.pad / mit.padded append `pad` up to batch_size'))
 
+  # the list branch of _pad, proved against the library contract of more_itertools.padded (A2); the assumed contract above
+  # is what rebatched_args uses for every container kind (numpy arrays stay assumed: np.pad)
+  R.add(Contract(f'{ITER}::_pad', P, variant='list', types=dict(data='list[obj]', pad='obj', batch_size='int'), ret='list[obj]',
+                 when=lambda it, a, k: False, requires=['len(data) <= batch_size'],
+                 ensures=['len(result) == batch_size',
+                          'forall(lambda j: result[j] is data[j], 0, len(data))',
+                          'forall(lambda j: result[j] is pad, len(data), batch_size)', 'result is not data'],
+                 bounded='bounded_rebatch', note='a new list: the rows, then the pad value up to the batch size'))
+
   for k, padded in ((2, False), (1, False), (2, True), (1, True)):
     cols = range(k)
     both = lambda tmpl: [tmpl.format(c=c, k=k) for c in cols]
